@@ -135,6 +135,8 @@ class Fault:
         self.exc = d.get("exc")
         self.dt = d.get("dt", 0.0)
         self.burst = d.get("burst", 1)
+        self.min_step = d.get("min_step")
+        self.op_index = d.get("op_index")
         self.seen = 0
         self.fired = 0
 
@@ -142,6 +144,10 @@ class Fault:
         if self.fired >= self.burst:
             return False
         if self.actor is not None and self.actor != a.name:
+            return False
+        if self.min_step is not None and a.step < self.min_step:
+            return False
+        if self.op_index is not None and (a.cur_op is None or a.cur_op.get("i") != self.op_index):
             return False
         if self.proc is not None and self.proc != a.proc.name:
             return False
@@ -333,6 +339,8 @@ class Sim:
         self.procs: Dict[str, Process] = {}
         self.log: List[tuple] = []
         self.keep_log = True
+        self.keep_steplog = False
+        self.steplog: List[tuple] = []
         self.probes: Counter = Counter()
         self.fired: Counter = Counter()
         self.fired_log: List[dict] = []
@@ -592,7 +600,6 @@ class Sim:
         if not p.alive:
             return
         p.alive = False
-        self.fired["crash"] += 1
         import os as _os
         for fd in list(p.fds):
             try:
@@ -615,6 +622,10 @@ class Sim:
                 a.blocked_on = None
         for cb in self.extra.get("on_crash", []):
             cb(p)
+
+    def exit_process(self, p: Process) -> None:
+        """Orderly process end (after an interrupt unwound): fds closed, kernel locks released."""
+        self.crash(p)
 
     # ------------------------------------------------------------------ the seam protocol
     def seam(self, op: str, cls: str, target: str, do: Callable[[], Any],
@@ -639,6 +650,8 @@ class Sim:
         p.seam_count += 1
         self._count_step(a)
         a.pending = (op, cls)
+        if self.keep_steplog:
+            self.steplog.append((a.name, a.step, p.seam_count, op, cls, target))
         after: Optional[Fault] = None
         for f in self.faults:
             if f.matches(a, op, cls):
